@@ -312,7 +312,12 @@ def dirty_walkers(w):
     return out
 
 
-def probes_for(names):
+def probes_for(names, first=None):
+    """first: a predicate selecting the probes that are run before all others (a probe can repair what the failing
+    call broke, and so hide it from the probes after it)"""
+    if first is not None:
+        ps = probes_for(names)
+        return [p for p in ps if first(p)] + [p for p in ps if not first(p)]
     ps = H.probe_events(names)
     ps += [("parse_hr", t) for t in HR_TEXTS] + [("parse_smt_full", t) for t in SMT_TEXTS]
     ps += [("ill_again", k) for k in ILL]
@@ -323,8 +328,16 @@ def probes_for(names):
 _TWIN = {}
 
 
-def twin(prefix, names):
-    key = (prefix, tuple(names))
+def _big_subst_first(p):
+    return p[0] == "subst" and p[2] == "4keys"
+
+
+def _order_for(failing):
+    return _big_subst_first if failing is not None and failing[0] == "subst_bad4" else None
+
+
+def twin(prefix, names, first=None):
+    key = (prefix, tuple(names), first is not None)
     if key not in _TWIN:
         if len(_TWIN) > 300:
             _TWIN.clear()
@@ -336,7 +349,7 @@ def twin(prefix, names):
                     w.call(ev)
                 except Exception:
                     pass
-            _TWIN[key] = [w.observe(p) for p in probes_for(names)]
+            _TWIN[key] = [w.observe(p) for p in probes_for(names, first)]
         finally:
             pop_env()
     return _TWIN[key]
@@ -344,7 +357,8 @@ def twin(prefix, names):
 
 def run_case(prefix, failing, names):
     """None, 'nofail' (the call did not raise) or (kind, msg, probe)"""
-    want = twin(prefix, names)
+    first = _order_for(failing)
+    want = twin(prefix, names, first)
     w = World()
     push_env(w.env)
     try:
@@ -356,7 +370,7 @@ def run_case(prefix, failing, names):
         if not w.fail(failing):
             return "nofail"
         dirty = dirty_walkers(w)
-        for p, exp in zip(probes_for(names), want):
+        for p, exp in zip(probes_for(names, first), want):
             got = w.observe(p)
             if got != exp:
                 return ("differs", "after %s and the failing call %s the probe %s gives %s; without the failing call %s%s"
